@@ -181,7 +181,7 @@ func runMmc(r *Rec) {
 		return
 	}
 	r.Bytes = cp(bt)
-	var g mmc.Message
+	g := &recvMsg // ONE receiver value for all messages of the process, as a receiving program has it
 	var err error
 	p := hx.Catch(func() { err = g.Parse(append([]byte(nil), bt...)) })
 	switch {
@@ -194,6 +194,11 @@ func runMmc(r *Rec) {
 		r.PV.Dev, r.PV.Cmd, r.PV.Resp, r.PV.Data = int(g.DeviceID), int(g.Command), g.IsResponse, cp(g.Data)
 	}
 }
+
+// the values the parsers fill are reused from message to message: what Parse yields must not depend on what the
+// receiver held before
+var recvMsg mmc.Message
+var recvGoTo mmc.GoTo
 
 func runLoc(r *Rec) {
 	r.Ev = "loc"
@@ -209,7 +214,7 @@ func runLoc(r *Rec) {
 		return
 	}
 	r.Bytes = cp(bt)
-	var g mmc.GoTo
+	g := &recvGoTo // ONE receiver value for all locate messages of the process
 	var err error
 	p := hx.Catch(func() { err = g.Parse(append([]byte(nil), bt...)) })
 	switch {
@@ -393,10 +398,18 @@ func runAll(recs []*Rec) {
 		}()
 	}
 	for _, r := range recs {
-		ch <- r
+		if r.Ev == "sx" { // (the corruption sweeps are the expensive part and keep no state)
+			ch <- r
+		}
 	}
 	close(ch)
 	wg.Wait()
+	// the machine-control messages are parsed one after the other, in order, into receiver values that are reused
+	for _, r := range recs {
+		if r.Ev != "sx" {
+			execute(r)
+		}
+	}
 }
 
 func write(path string, recs []*Rec) {
